@@ -391,3 +391,47 @@ func VerifC05MemConcurrent() {
 	wait.Close(nil)
 	verifReach("c05.concurrent-end")
 }
+
+// VerifC05MemEviction: as VerifC05MemConcurrent, with the cache at its size limit: EK chunks of a full
+// segment each, at most two segments fit, so the writer can only go on by evicting segments the reader has
+// left (it waits for the reader otherwise). A reader that is still open and whose position is still valid
+// receives every byte - it is never left behind by a collection pass.
+func VerifC05MemEviction() {
+	// native replays: a reader that has just handed a segment back pauses (see the unit's native_rewrite), which
+	// is where the engine's counterexamples preempt it
+	verifPauseOn = true
+	defer func() { verifPauseOn = false }()
+	L := int64(verifParam("LOGSIZE", 2))
+	K := verifParam("EK", 4)
+	mc := verifC05Chan(L, 2*L)
+	mc.SetRunId("r1")
+	base := int64(100)
+	var chunks [][]byte
+	var all []byte
+	for i := 0; i < K; i++ {
+		c := verifBytes("aof", int(L))
+		chunks = append(chunks, c)
+		all = append(all, c...)
+	}
+	w, err := mc.NewAofWritter(&verifC05Src{chunks: chunks}, base)
+	verifAssert(err == nil, "C05.mem.new-aof-writer")
+	rd, err := mc.NewReader(Offset{RunId: "r1", Offset: base})
+	verifAssert(err == nil, "C05.mem.valid-offset-but-no-reader")
+	if err != nil {
+		return
+	}
+	wait := usync.NewWaitCloser(nil)
+	rd.Start(wait)
+	w.Start()
+	got := make([]byte, len(all))
+	n, rerr := io.ReadFull(rd.IoReader(), got)
+	verifAssert(rerr == nil && n == len(all), "C05.mem.eviction-leaves-open-reader-behind")
+	for i := 0; i < n && i < len(all); i++ {
+		verifAssert(got[i] == all[i], "C05.mem.concurrent-reader-bytes")
+	}
+	l, _ := mc.GetOffsetRange("r1")
+	verifCover(l > base, "c05.eviction-happened")
+	rd.Close()
+	wait.Close(nil)
+	verifReach("c05.eviction-end")
+}
